@@ -32,12 +32,16 @@ def make_jobs(tier, seed):
     per = nrand // NSHARDS
     for s in range(NSHARDS):
         jobs.append(('rand', seed * 1000003 + s, per))
+        jobs.append(('loopy', seed * 1000003 + 700 + s, 3 * per))
     return jobs
 
 
 def random_grammar(r):
-    if r.random() < 0.04:
+    k = r.random()
+    if k < 0.04:
         return common.permuted_pairs_grammar(r)
+    if k < 0.24:
+        return common.loopy_grammar(r)
     depth = r.choice([2, 3, 3, 4, 4, 5, 6])
     g = gen.Gen(r, depth=depth, ndefs=(0, r.choice([2, 4, 8])), specs=r.random() < 0.4,
                 builtins=r.random() < 0.3, max_width=r.choice([2, 3, 4]),
@@ -84,6 +88,11 @@ def run_job(job, acc):
                 for shell in common.SHELLS:
                     check_one(P, stmts, shell, acc, 'exhaustive<=%d' % n)
             acc.count('exhaustive_trees_done')
+        elif job[0] == 'loopy':
+            _, s, per = job
+            r = random.Random(s)
+            for i in range(per):
+                check_one(P, common.loopy_grammar(r), 'bash', acc, 'loopy seed=%d #%d' % (s, i))
         else:
             _, s, per = job
             r = random.Random(s)
